@@ -511,7 +511,7 @@ theorem transform_direct_verdict (cfg : Cfg) (hd : cfg.direct = true) (hl : Leaf
   · simp only [tr_erel_ok_ok, Res.shape, Prod.mk.injEq] at hrel
     simp [verdict, hrel.1]
 
-/-! ### keyed mode: list items are keyed by the `str()` of the untransformed value -/
+/-! ### keyed mode: non-record list items are keyed by the JSON text of the *transformed* value (fix C10-a) -/
 
 def lowerFn : Val → Val
   | .str s => .str (Py.lower s)
@@ -529,13 +529,37 @@ theorem trCexCfg_leaf : LeafTransform trCexCfg := by
   intro v hv
   cases v <;> simp_all [lowerFn, isPyScalar]
 
-/-- in keyed mode (`n0list.compare`) the mapped trees are equal, yet two differences are reported -/
-theorem transform_keyed_cex :
-    (match compareTop trCexCfg trCexA trCexB with | .ok r => r.diffs | .error _ => 0) = 2 ∧
+/-- in keyed mode (`n0list.compare`) the items `'A'` and `'a'` meet (both have the key `"a"`) and nothing is
+reported, as on the mapped trees (before fix C10-a: two unique entries) -/
+theorem transform_keyed_example :
+    (match compareTop trCexCfg trCexA trCexB with | .ok r => r.diffs | .error _ => 1) = 0 ∧
       mapT trCexCfg [] trCexA = mapT trCexCfg [] trCexB ∧
       (match compareTop { trCexCfg with tr := [] } (mapT trCexCfg [] trCexA) (mapT trCexCfg [] trCexB) with
         | .ok r => r.diffs | .error _ => 1) = 0 := by
   decide
+
+/-- `transform=(('//a[0]', lower),)` -/
+def trNestCfg : Cfg := { Cfg.default Flags.init false with tr := [⟨['/', '/', 'a', '[', '0', ']'], lowerFn⟩] }
+def trNestA : Val := .dict .n0 [(['a'], .list .n0 [.list .n0 [.str ['A']]])]
+def trNestB : Val := .dict .n0 [(['a'], .list .n0 [.list .n0 [.str ['a']]])]
+
+/-- what stays outside the keyed statement: a list nested in a list whose leaves are transformed by a pattern
+naming the index.  The outer items `['A']` and `['a']` are keyed by their own JSON text (the transform registered
+for `/a[0]` is not the one of the list `/a`), so they do not meet, while the mapped trees are equal. -/
+theorem transform_keyed_nested_cex :
+    (match compareTop trNestCfg trNestA trNestB with | .ok r => r.diffs | .error _ => 0) = 2 ∧
+      mapT trNestCfg [] trNestA = mapT trNestCfg [] trNestB ∧
+      (match compareTop { trNestCfg with tr := [] } (mapT trNestCfg [] trNestA) (mapT trNestCfg [] trNestB) with
+        | .ok r => r.diffs | .error _ => 1) = 0 := by
+  decide
+
+theorem trNestCfg_leaf : LeafTransform trNestCfg := by
+  intro t ht
+  simp only [trNestCfg, Cfg.default, List.mem_singleton] at ht
+  subst ht
+  refine ⟨fun _ _ => rfl, fun _ _ => rfl, ?_, .inr rfl⟩
+  intro v hv
+  cases v <;> simp_all [lowerFn, isPyScalar]
 
 /-- the same pair through the direct entry point: no difference is reported -/
 theorem transform_direct_example :
